@@ -7,7 +7,7 @@ regenerated constants `Facts.MaxColumns`, `Facts.MinColumns`, `Facts.TotalRows`;
 `limits_ok` pins the values the arithmetic below relies on, so an edit of the
 constants in templates.go breaks this file.
 -/
-import XlModel.Lemmas.Ref10
+import XlModel.Lemmas.Ref11
 
 namespace XlModel.Props.C20
 open XlModel XlModel.Ref
@@ -1169,5 +1169,280 @@ theorem finding_cf_unset_spelling :
     cfUnsetFinds ['a', '1', ':', 'b', '2'] ['$', 'A', '$', '1', ':', '$', 'B', '$', '2'] = some false ∧
     cfUnsetFinds ['a', '1', ':', 'b', '2'] ['A', '1', ':', 'B', '2'] = some true := by
   refine ⟨by decide +kernel, by decide +kernel, by decide +kernel⟩
+
+/-! ## `SetConditionalFormat`'s reference grammar (`parseRef`, `prepareConditionalFormatRange`) -/
+
+/-- **exact acceptance of one part** (`parseRef` as used by `SetConditionalFormat`): with
+`t` the text after an optional `sheet!` prefix, the part is accepted iff — tried in
+this order — `t` is a strict A1 cell, else an accepted column name, else a string
+`strconv.Atoi` reads as an integer in 1..TotalRows (a sign is accepted). -/
+theorem cf_part_accepts_iff (ref : List Char) (part : CfPart) :
+    cfParseRef ref = .ok part ↔
+      (∃ c r, cellNameToCoordinates (cfCellText ref) = .ok (c, r) ∧ part = .cell c r) ∨
+      ((∃ e, cellNameToCoordinates (cfCellText ref) = .error e) ∧
+        ∃ c, columnNameToNumber (cfCellText ref) = .ok c ∧ part = .col c) ∨
+      ((∃ e, cellNameToCoordinates (cfCellText ref) = .error e) ∧
+        (∃ e, columnNameToNumber (cfCellText ref) = .error e) ∧
+        ∃ r, atoi (cfCellText ref) = some r ∧ 1 ≤ r ∧ r ≤ (Facts.TotalRows : Int) ∧ part = .row r) := by
+  unfold cfParseRef
+  cases hd : cellNameToCoordinates (cfCellText ref) with
+  | ok p =>
+    obtain ⟨c, r⟩ := p
+    constructor
+    · intro h
+      simp only [Except.ok.injEq] at h
+      exact Or.inl ⟨c, r, rfl, h.symm⟩
+    · rintro (⟨c', r', h1, rfl⟩ | ⟨⟨e, he⟩, _⟩ | ⟨⟨e, he⟩, _⟩)
+      · cases h1; rfl
+      · cases he
+      · cases he
+  | error e =>
+    cases hc : columnNameToNumber (cfCellText ref) with
+    | ok c =>
+      constructor
+      · intro h
+        simp only [Except.ok.injEq] at h
+        exact Or.inr (Or.inl ⟨⟨e, rfl⟩, c, rfl, h.symm⟩)
+      · rintro (⟨_, _, h1, _⟩ | ⟨_, c', h1, rfl⟩ | ⟨_, ⟨e2, he2⟩, _⟩)
+        · cases h1
+        · cases h1; rfl
+        · cases he2
+    | error e2 =>
+      cases ha : atoi (cfCellText ref) with
+      | none =>
+        constructor
+        · intro h; cases h
+        · rintro (⟨_, _, h1, _⟩ | ⟨_, _, h1, _⟩ | ⟨_, _, r, h1, _⟩) <;> cases h1
+      | some r =>
+        by_cases hr : 1 ≤ r ∧ r ≤ (Facts.TotalRows : Int)
+        · simp only [hr, and_self, if_true]
+          constructor
+          · intro h
+            simp only [Except.ok.injEq] at h
+            exact Or.inr (Or.inr ⟨⟨e, rfl⟩, ⟨e2, rfl⟩, r, rfl, hr.1, hr.2, h.symm⟩)
+          · rintro (⟨_, _, h1, _⟩ | ⟨_, _, h1, _⟩ | ⟨_, _, r', h1, _, _, rfl⟩)
+            · cases h1
+            · cases h1
+            · cases h1; rfl
+        · simp only [hr, if_false]
+          constructor
+          · intro h; cases h
+          · rintro (⟨_, _, h1, _⟩ | ⟨_, _, h1, _⟩ | ⟨_, _, r', h1, a, b, _⟩)
+            · cases h1
+            · cases h1
+            · cases h1; exact absurd ⟨a, b⟩ hr
+
+/-- every accepted part stands for a corner inside the grid -/
+theorem cf_part_in_grid (ref : List Char) (part : CfPart) (h : cfParseRef ref = .ok part) :
+    CfPartOk part := by
+  rcases (cf_part_accepts_iff ref part).mp h with ⟨c, r, hd, rfl⟩ | ⟨_, c, hc, rfl⟩ | ⟨_, _, r, _, h1, h2, rfl⟩
+  · obtain ⟨a, b, c', d, _⟩ := cell_decode_encode _ c r hd
+    exact ⟨a, b, c', d⟩
+  · obtain ⟨a, b, _⟩ := col_decode_encode _ c hc
+    exact ⟨a, b⟩
+  · exact ⟨h1, h2⟩
+
+/-- the name stored for a corner is a strict A1 cell denoting that corner -/
+theorem cf_corner_name (part : CfPart) (first : Bool) (hok : CfPartOk part) :
+    ∃ c r : Nat, cfCorner first part = ((c : Int), (r : Int)) ∧ Shape (cfName (cfCorner first part)) c r := by
+  have hM := limits_ok
+  have key : ∀ (c r : Nat), 1 ≤ c → c ≤ Facts.MaxColumns → 1 ≤ r → r ≤ Facts.TotalRows →
+      ∃ c' r' : Nat, (((c : Int), (r : Int)) : Int × Int) = ((c' : Int), (r' : Int)) ∧
+        Shape (cfName ((c : Int), (r : Int))) c' r' := by
+    intro c r a1 a2 a3 a4
+    refine ⟨c, r, rfl, ?_⟩
+    have henc := cell_encode_eq c r false a1 a2 a3 a4
+    have hsh := cell_encode_shape c r false a1 a2 a3 a4
+    unfold cfName
+    simp only [henc]
+    simpa using hsh
+  cases part with
+  | cell c r =>
+    obtain ⟨a, b, c', d⟩ := hok
+    obtain ⟨cn, rfl⟩ : ∃ n : Nat, c = n := ⟨c.toNat, by omega⟩
+    obtain ⟨rn, rfl⟩ : ∃ n : Nat, r = n := ⟨r.toNat, by omega⟩
+    exact key cn rn (by omega) (by omega) (by omega) (by omega)
+  | col c =>
+    obtain ⟨a, b⟩ := hok
+    obtain ⟨cn, rfl⟩ : ∃ n : Nat, c = n := ⟨c.toNat, by omega⟩
+    cases first with
+    | true =>
+      have := key cn 1 (by omega) (by omega) (by omega) (by omega)
+      simpa [cfCorner] using this
+    | false =>
+      have := key cn Facts.TotalRows (by omega) (by omega) (by omega) (by omega)
+      simpa [cfCorner] using this
+  | row r =>
+    obtain ⟨a, b⟩ := hok
+    obtain ⟨rn, rfl⟩ : ∃ n : Nat, r = n := ⟨r.toNat, by omega⟩
+    cases first with
+    | true =>
+      have := key 1 rn (by omega) (by omega) (by omega) (by omega)
+      simpa [cfCorner] using this
+    | false =>
+      have := key Facts.MaxColumns rn (by omega) (by omega) (by omega) (by omega)
+      simpa [cfCorner] using this
+
+/-- **what `SetConditionalFormat` stores for one area is always a strict reference**:
+a strict A1 cell (one part) or a strict `cell:cell` range (two parts) whose corners are
+the corners the parts stand for — a whole column part `A` is `A1` as first corner and
+`A1048576` as second, a whole row part `5` is `A5` / `XFD5`. -/
+theorem cf_area_stored_strict (area stored : List Char) (h : cfArea area = .ok stored) :
+    (∃ c r, parseA1 stored = some (c, r)) ∨ (∃ q, parseRangeStrict stored = some q) := by
+  unfold cfArea at h
+  split at h
+  · rename_i a _
+    split at h
+    · cases h
+    · rename_i p hp
+      cases h
+      obtain ⟨c, r, _, hs⟩ := cf_corner_name p true (cf_part_in_grid a p hp)
+      exact Or.inl ⟨c, r, parseA1_of_shape hs⟩
+  · rename_i a b _
+    split at h
+    · cases h
+    · rename_i p hp
+      split at h
+      · cases h
+      · rename_i q hq
+        cases h
+        obtain ⟨c1, r1, _, hs1⟩ := cf_corner_name p true (cf_part_in_grid a p hp)
+        obtain ⟨c2, r2, _, hs2⟩ := cf_corner_name q false (cf_part_in_grid b q hq)
+        exact Or.inr ⟨(c1, r1, c2, r2), (parseRangeStrict_iff _ c1 r1 c2 r2).mpr ⟨_, _, by simp, hs1, hs2⟩⟩
+  · cases h
+
+/-- hence every area of an accepted reference is stored as a strict cell or range:
+the worksheet never receives anything `flatSqref` would reject -/
+theorem cf_stored_areas_strict (s : List Char) (xs : List (List Char)) (h : cfPrepareAreas s = .ok xs) :
+    ∀ x ∈ xs, (∃ c r, parseA1 x = some (c, r)) ∨ (∃ q, parseRangeStrict x = some q) := by
+  unfold cfPrepareAreas at h
+  split at h
+  · cases h
+  · generalize cfAreasOf s = areas at h
+    induction areas generalizing xs with
+    | nil => simp only [cfMapAreas, Except.ok.injEq] at h; subst h; simp
+    | cons a rest ih =>
+      simp only [cfMapAreas] at h
+      split at h
+      · cases h
+      · rename_i x hx
+        split at h
+        · cases h
+        · rename_i ys hys
+          cases h
+          intro y hy
+          rcases List.mem_cons.mp hy with rfl | hy
+          · exact cf_area_stored_strict a _ hx
+          · exact ih ys hys y hy
+
+/-- **finding (open)**: `SetConditionalFormat` accepts strings that are not references:
+a signed row (`"+5"` → `A5`, `"+1:+3"` → `A1:XFD3`: `strconv.Atoi`), a lone column name
+or row number (`"A"` → `A1`, `"5"` → `A5`: only the first cell, not the column / row),
+mixed parts (`"A:5"` → `A1:XFD5`, `"A1:C"` → `A1:C1048576`), and a `sheet!` prefix that
+is silently dropped (`"Other!A1:B2"` is applied to the sheet passed as argument).
+Oracle signatures `cfref:accept-non-ref:signed-row`, `…:lone-column-or-row`,
+`…:mixed-parts`, `…:sheet-prefix`. -/
+theorem finding_cf_grammar_lenient :
+    cfPrepare ['+', '5'] = .ok ['A', '5'] ∧
+    cfPrepare ['A'] = .ok ['A', '1'] ∧
+    cfPrepare ['A', ':', '5'] = .ok ['A', '1', ':', 'X', 'F', 'D', '5'] ∧
+    cfPrepare ['O', '!', 'A', '1', ':', 'B', '2'] = .ok ['A', '1', ':', 'B', '2'] ∧
+    cfPrepare ['A', ':', 'C'] = .ok ['A', '1', ':', 'C', '1', '0', '4', '8', '5', '7', '6'] ∧
+    (∃ e, cfPrepare ['-', '5'] = .error e) := by
+  refine ⟨by decide +kernel, by decide +kernel, by decide +kernel, by decide +kernel, by decide +kernel,
+    ⟨.cellName, by decide +kernel⟩⟩
+
+/-! ## Remaining entry points and merged-cell lists with empty / single-cell references -/
+
+/-- `StreamWriter.SetRow`, `StreamWriter.InsertPageBreak` and `CalcCellValue` accept
+exactly the strict A1 references; `StreamWriter.MergeCell` decodes each argument by
+itself (`cellRefsToCoordinates`), so it was never affected by the range leniencies. -/
+theorem opt_stream_calc_accept_iff_a1 (s : List Char) :
+    (optAccepts .streamSetRow s = true ↔ ∃ c r, parseA1 s = some (c, r)) ∧
+    (optAccepts .streamPageBreak s = true ↔ ∃ c r, parseA1 s = some (c, r)) ∧
+    (optAccepts .calcCell s = true ↔ ∃ c r, parseA1 s = some (c, r)) := by
+  refine ⟨?_, ?_, ?_⟩
+  · simp only [optAccepts]; exact decode_isOk_iff_a1 s
+  · simp only [optAccepts]; exact decode_isOk_iff_a1 s
+  · simp only [optAccepts]; exact api_accepts_iff_a1 s
+
+/-- `SetSheetCol(sheet, cell, &[v1, v2])`: strict A1 start cell and the second value
+still inside the grid -/
+theorem opt_sheetcol2_accepts_iff (s : List Char) :
+    optAccepts .sheetCol2 s = true ↔ ∃ c r, parseA1 s = some (c, r) ∧ r + 1 ≤ Facts.TotalRows := by
+  simp only [optAccepts]
+  cases hd : cellNameToCoordinates s with
+  | error e =>
+    simp only [Bool.false_eq_true, false_iff, not_exists, not_and]
+    intro c r hp
+    have := spec_sound s c r hp
+    rw [hd] at this; cases this
+  | ok p =>
+    obtain ⟨ci, ri⟩ := p
+    obtain ⟨c, r, hsh, rfl, rfl⟩ := shape_of_decode hd
+    have hp := parseA1_of_shape hsh
+    obtain ⟨_, _, _, _, _, _, _, _, _, _, _, _, hc1, hc2, _, hr1, hr2⟩ := hsh
+    have hM := limits_ok
+    by_cases hfit : r + 1 ≤ Facts.TotalRows
+    · have := cell_encode_eq c (r + 1) false hc1 hc2 (by omega) hfit
+      have e : ((r : Int) + 1) = ((r + 1 : Nat) : Int) := by omega
+      simp only [e, this, true_iff]
+      exact ⟨c, r, hp, hfit⟩
+    · have hbad : coordinatesToCellName (c : Int) ((r : Int) + 1) false = .error .maxRows := by
+        unfold coordinatesToCellName
+        have a1 : ¬ ((c : Int) < 1) := by omega
+        have a2 : ¬ ((r : Int) + 1 < 1) := by omega
+        have a3 : ((r : Int) + 1 > (Facts.TotalRows : Int)) := by omega
+        simp [a1, a2, a3]
+      simp only [hbad, Bool.false_eq_true, false_iff, not_exists, not_and]
+      intro c' r' hp' hfit'
+      rw [hp] at hp'; cases hp'
+      exact hfit hfit'
+
+/-- **paths on lenient merged-cell lists**: `paths_merged_land` extended to lists that
+also contain empty references (skipped) and single-cell references (`X` scanned as
+`X:X`) — on such a list no path through `mergeCellsParser` fails for an accepted
+spelling. (A reference that is none of the three — `"B2:C3:D4"`, `"junk"` — makes
+the redirect and hence every such path fail before or at it: `paths_merged_fail`.) -/
+theorem paths_merged_total (ms : List (List Char)) (s : List Char) (ci ri : Int)
+    (hs : cellNameToCoordinates s = .ok (ci, ri))
+    (hwf : ∀ ref ∈ ms, ref = [] ∨ (∃ c r, parseA1 ref = some (c, r)) ∨
+      ∃ c1 r1 c2 r2, parseRangeStrict ref = some (c1, r1, c2, r2)) :
+    ∃ a, mergeParseWith ms s = .ok a := by
+  obtain ⟨_, _, _, _, canon, hcanon, _⟩ := cell_decode_encode s ci ri hs
+  unfold mergeParseWith
+  rw [upper_same_cell s ci ri hs]
+  simp only [hcanon]
+  apply redirectScan_total'
+  intro ref hr
+  rcases hwf ref hr with h | ⟨c, r, h⟩ | ⟨c1, r1, c2, r2, h⟩
+  · exact Or.inl h
+  · exact Or.inr (Or.inl ⟨c, r, shape_of_parseA1 h⟩)
+  · exact Or.inr (Or.inr ⟨c1, r1, c2, r2, (parseRangeStrict_iff ref c1 r1 c2 r2).mp h⟩)
+
+/-- a failing redirect makes every path through `mergeCellsParser` fail with that error -/
+theorem paths_merged_fail (ms : List (List Char)) (s : List Char) (e : Err) (q : List Char × Int)
+    (hq : splitCellName s = .ok q) (h : mergeParseWith ms s = .error e) :
+    pathPrepareM ms s = .error e ∧ pathGetStringM ms s = .error e ∧ pathRichGetM ms s = .error e ∧
+    pathLinkM ms s = .error e := by
+  unfold pathRichGetM pathPrepareM pathGetStringM pathLinkM
+  simp only [h, hq, and_self]
+
+/-- a single-cell merged reference redirects the cell it names to itself, as stored -/
+theorem anchor_single_cell_ref (p : Cell) (ref : List Char) (c r : Nat)
+    (hq : parseA1 ref = some (c, r)) (hit : MergeHit p ref) :
+    p = ((c : Int), (r : Int)) ∧ (splitColon ref).headD [] = ref := by
+  have hs := shape_of_parseA1 hq
+  obtain ⟨_, q, hdec, hin⟩ := hit
+  have hcc : (countColon ref != 1) = true := by rw [countColon_cell hs]; decide
+  simp only [hcc, if_true] at hdec
+  have := (rangeRef_ok_iff (ref ++ [':'] ++ ref) _ _ _ _).mpr
+    ⟨c, r, c, r, rfl, rfl, rfl, rfl, ref, ref, by simp, hs, hs⟩
+  rw [this] at hdec
+  cases hdec
+  rw [sort_minmax, cellInRange_iff] at hin
+  dsimp only at hin
+  refine ⟨Prod.ext (by simp only []; omega) (by simp only []; omega), ?_⟩
+  rw [splitColon_of_parseA1 hq]; rfl
 
 end XlModel.Props.C20
